@@ -5,7 +5,19 @@ import os
 HERE = os.path.dirname(os.path.dirname(os.path.abspath(__file__)))
 
 CLAIMED = {
-    "C04": dict(
+    "C19": dict(
+        level="exploration", design="DESIGN.md 3/C19",
+        text=("Seeded schedule search: a generated lazily-bootstrapped spec class (optional spec / plain subclass, "
+              "Attr/field declarations, factories, preparers, properties) is used for the first time by 2-3 real threads that "
+              "run one at a time under a baton; pre-emption points are library line events (thorough: also opcode events in "
+              "the bootstrap functions); shapes: <=3 bounded pre-emptions biased to bootstrap code, PCT-like priorities, "
+              "random switching. Oracle: no thread raises, every thread's instance / repr / helper result equals the eager "
+              "sequential reference, canonical class description (metadata, attr specs, method names + signatures, defaults) "
+              "equals the eager one, no deadlock, progress within a step cap. Sampling of the schedule space, not enumeration."),
+        note=("Trusted: sys.settrace line granularity (a race needing a switch inside one C-level call cannot be produced; under "
+              "the GIL those are atomic); the cooperative SimRLock replacing threading.RLock as seen by the library; CPython 3.12."),
+        technique="deterministic simulation: baton-passing real threads, seeded scheduler over sys.settrace pre-emption points, simulated RLock, eager sequential reference model",
+    ),    "C04": dict(
         level="fault_enumeration", design="DESIGN.md 3/C04",
         text=("Every operation of a seeded history (constructor, assignment, deletion, all helpers incl. _inplace=True, "
               "multi-keyword update/transform, element helpers) is re-executed with an injected exception at callback "
